@@ -173,6 +173,31 @@ prop(
     thorough=dict(checks=12000, shards=16),
 )
 
+prop(
+    "C12",
+    title="$ref targets are located as RFC 3986 reference resolution prescribes",
+    technique="exhaustive enumeration over a bounded alphabet plus property-based testing (rapid); differential oracle: the URL the document loader receives vs net/url's RFC 3986 ResolveReference of the $ref against the URL of the containing document",
+    rule="exhaustive: references of 1-3 segments over {a, b.json, ., .., c%20d, é, x.y, %41, e%25f} x prefix {relative, ./, root-relative /} x fragment {none, pointer} x 6 file/http/https bases at depth 0-2, each observed twice: through ResolveRefWithBase (base = RelativeBase) and through ExpandSpec with the $ref sitting in a document imported from another root (base = that document's URL); plus empty, fragment-only and absolute references. Random: up to 8 segments from a larger alphabet, ../ prefixes, non-ASCII and escaped bases, absolute refs in any case with default ports and duplicate slashes. Excluded with reasons: references designating a directory (last segment . or .., trailing /), %2F/%2E (escapes of delimiters), queries. Non-trivial = reference contains .., an escape or non-ASCII; distinct by hash of base+ref+observer",
+    exhaustive_note="all 29,484 (reference, base) pairs of the bounded alphabet minus the excluded directory references, x 2 observers, in every run of either tier",
+    design_ref="DESIGN.md §4 C12",
+    level_text="exhaustive over the bounded alphabet (every run) + exploration of longer references: the single URL handed to the loader must equal the standard resolution with the fragment removed, compared as URLs (scheme, host, decoded path); a reference designating the containing document itself must cause no other request",
+    level_note="net/url.ResolveReference is the reference implementation of RFC 3986 section 5; URL comparison is modulo percent-encoding normalisation (RFC 3986 6.2.2); absolute references are compared after the canonicalisation of C13",
+    quick=dict(checks=1500, shards=4),
+    thorough=dict(checks=20000, shards=16),
+)
+
+prop(
+    "C05",
+    title="Resolving a reference returns exactly the designated sub-document",
+    technique="property-based testing (rapid) against the reference model (RFC 3986 resolution + RFC 6901 pointer evaluation on decoded JSON), differential across the three ways of supplying the root (typed, generic JSON, location only) and across all Resolve* entry points",
+    rule=GRAPH_RULE + "Names additionally include quotes, backslashes and newlines; 25% of graphs carry faults. The reference targets a position drawn from every schema/parameter/response/path-item/items position of every document (nested pointers through every keyword), spelled relative to the root or (30%) to another document; 5/12 of the references are then made dangling or ill-typed (missing pointer, missing document, index into an object, unset known member, other kind). Non-trivial = pointer needs an escape, or target in another document, or pointer depth >= 4; distinct by hash of the case",
+    design_ref="DESIGN.md §4 C05",
+    level_text="exploration: each case is resolved through every applicable entry point and root mode; the result must equal the model's designated sub-document decoded into the requested kind (compared as JSON values, nested $refs verbatim), a reference designating nothing must give an error and never a zero value, the root's JSON and the caller's options must be unchanged afterwards",
+    level_note="the entry points without base (ResolveRef, ResolveParameter, ResolveResponse) are exercised on their documented domain: references into the root that designate the requested kind; the base document is never one the loader refuses",
+    quick=dict(checks=1500, shards=4),
+    thorough=dict(checks=15000, shards=16),
+)
+
 
 def manifest():
     allids = []
